@@ -351,6 +351,9 @@ WORKLOADS = [
     ["--txns", "25", "--memtable", "32768", "--levels", "2", "--versioning"],
     ["--txns", "30", "--memtable", "32768", "--levels", "1", "--no-close"],
     ["--txns", "35", "--memtable", "24576", "--levels", "7", "--l0", "1"],
+    # scripted rotation / flush-one / compaction: several immutable memtables pending at the crash instants
+    ["--txns", "40", "--memtable", "32768", "--levels", "3", "--manual"],
+    ["--txns", "40", "--memtable", "16384", "--levels", "2", "--manual", "--vlog"],
 ]
 
 
